@@ -224,8 +224,8 @@ def parse_operand(s):
             return (pre.split()[-1], parse_place(s[len(pre):]))
     if s.startswith('const '):
         return ('const', s[6:].strip())
-    if re.match(r'^[A-Za-z_<][\w:<>, &\[\];\'()]*$', s) and '::' in s:
-        return ('fnitem', s)
+    if re.match(r'^[A-Za-z_<][\w:<>, &\[\];\'()]*$', s) and ('::' in s or re.match(r'^[A-Za-z]\w*$', s)):
+        return ('fnitem', s)          # a function item used as a value (a path, or the bare name of a free function of the crate)
     raise MirError('operand? ' + s[:200])
 
 
@@ -1202,13 +1202,22 @@ class Engine:
         return self.uninterpreted(st, call)
 
     def _mut_container_arg(self, st, args):
+        """a model container passed by mutable reference, or a model struct that HOLDS model containers passed by any reference (`&self` of a store)"""
+        def holds(v, depth=0):
+            if isinstance(v, (SeqV, MapV, IterV)):
+                return True
+            if isinstance(v, Agg) and depth < 3:
+                return any(holds(x, depth + 1) for x in v.fields)
+            return False
         for a in args:
-            if isinstance(a, Ref) and a.mut:
+            if isinstance(a, Ref):
                 try:
                     tgt = self.read(st, a.loc, a.path)
                 except (MirError, IndexError):
                     continue
-                if isinstance(tgt, (SeqV, MapV, IterV)):
+                if isinstance(tgt, (SeqV, MapV, IterV)) and a.mut:
+                    return True
+                if isinstance(tgt, Agg) and tgt.kind == 'struct' and holds(tgt):
                     return True
         return False
 
